@@ -333,7 +333,8 @@ EXTRA = {
            "no DATA frame may be written; callers are cancelled while their frame is in flight (the frame stays the "
            "link's business: window and budget rules continue to apply); an ERROR frame arriving after the host gave up "
            "on its own is reported with its code."
-           ' NAK reactions include NAKs that ask for another frame than the outstanding one (one behind, three ahead): the repeat must follow at once and keep the frame number the send started with.',
+           ' NAK reactions include NAKs that ask for another frame than the outstanding one (one behind, three ahead): the repeat must follow at once and keep the frame number the send started with.'
+           ' Payloads are as long as real EZSP frames get (40 and 180 bytes; which sends carry them varies per case), so that every repeat can be compared byte for byte in every logging mode.',
     "C06": " The seeded part also uses the route / extended-timeout set-up commands (packet-send class) and ordinary "
            "commands whose frame ID means something else in another protocol version; the simulated NCP sets the "
            "callbackPending / overflow frame-control bits on responses.",
@@ -341,7 +342,8 @@ EXTRA = {
            "invalidCommand frame answering pending commands of several response layouts must be decoded with its own "
            "schema; half of the shards use a socket:// device path; every unsolicited frame is fed twice in a row and "
            "must be delivered twice."
-           " Values that one of bellows' own field types decodes from bytes but cannot encode and decode back to themselves are violations of the codec clause (they used to be left out of the generated tuples).",
+           " Values that one of bellows' own field types decodes from bytes but cannot encode and decode back to themselves are violations of the codec clause (they used to be left out of the generated tuples)."
+           " Arguments are also passed as instances of harness-made sub-classes whose own wire layout differs from the declared type's (a struct with one integer field re-declared wider, an integer with its own serialize()): the call must serialise them as the declared type; every shard starts with a command that ends by its timeout, and callback frames later arrive under that sequence number.",
     "C08": " Truncations are repeated with other frame-control bytes (overflow / truncated / callback-pending / reserved "
            "bits); the pending command's caller is cancelled and its well-formed response delivered before the "
            "cancelled task has run its clean-up.",
@@ -370,7 +372,8 @@ EXTRA = {
     "C12": " Refusals and failed confirmations are repeated with every other status code of the reply's status family; "
            "confirmations of every outgoing-message type carrying the request's tag but another destination / table "
            "index must not complete it; the application is disconnected while accepted unicasts await confirmation."
-           " Request bookkeeping is found by its (destination, tag) key in whatever container the application object holds it (seen while in flight, gone at quiescence); the number of enqueue attempts follows the tree's RETRY_DELAYS. The whole stack is also run on the faulty line (rtmon/fullstack.py: real ControllerApplication + EZSP + Gateway + AshProtocol created through ControllerApplication.connect(), against the independent NCP-side ASH endpoint and the stateful NCP model; unicasts awaiting confirmations, incoming messages and keep-alives under a seeded fault rate, every protocol version): a unicast may return only if its own acceptance and its own success confirmation had been delivered to the host by then, may raise a delivery error only after a refusal / failed confirmation / busy answers through the last attempt, and leaves nothing behind.",
+           " Request bookkeeping is found by its (destination, tag) key in whatever container the application object holds it (seen while in flight, gone at quiescence); the number of enqueue attempts follows the tree's RETRY_DELAYS. The whole stack is also run on the faulty line (rtmon/fullstack.py: real ControllerApplication + EZSP + Gateway + AshProtocol created through ControllerApplication.connect(), against the independent NCP-side ASH endpoint and the stateful NCP model; unicasts awaiting confirmations, incoming messages and keep-alives under a seeded fault rate, every protocol version): a unicast may return only if its own acceptance and its own success confirmation had been delivered to the host by then, may raise a delivery error only after a refusal / failed confirmation / busy answers through the last attempt, and leaves nothing behind."
+           ' Packets carry every priority level zigpy defines (and none).',
     "C13": " Mixed shards keep applications of several protocol versions alive in one process; the same application "
            "object is reconnected to NCPs of other versions across the v14 boundary; the node's own network address is "
            "changed mid-run; the network information is re-read while unicasts keep arriving; trust-centre join "
@@ -379,7 +382,8 @@ EXTRA = {
            " The whole stack is also run on the faulty line (rtmon/fullstack.py: real ControllerApplication + EZSP + Gateway + AshProtocol created through ControllerApplication.connect(), against the independent NCP-side ASH endpoint and the stateful NCP model; unicasts awaiting confirmations, incoming messages and keep-alives under a seeded fault rate, every protocol version): the packets handed to zigpy must be exactly the incoming-message callbacks the host's EZSP layer received - once each, in order, field for field - whatever ASH retransmitted or the line duplicated.",
     "C14": " A link key that is not the last one may be refused by the NCP (the others must still make the round trip); "
            "frame counter 0 is written over an NCP that holds a non-zero counter from an earlier network."
-           " Every third NCP sees two or three restores in a row, the later ones often for the (restored) address it runs with at that moment.",
+           " Every third NCP sees two or three restores in a row, the later ones often for the (restored) address it runs with at that moment."
+           " About half of the later restores on one application are read-modify-write: what the application read back, with one setting changed, written again - the objects handed in share their containers with the application's own state.",
     "C15": " Start-up is also run with several coordinator endpoints that share groups, and again on the same object "
            "after the NCP cleared or lost entries; pairs / triples of calls for different groups overlap in time; "
            "rejections are repeated with every status code of the reply's family; group changes are also made through "
@@ -393,13 +397,16 @@ EXTRA = {
            "every interleaving of their start and end events (non-LIFO lifetimes): each list command returns exactly "
            "the results delivered between its issue and its completion and nothing stays registered."
            " 'status_overlap' shards run two or three operations that wait for a stack status at the same time (formNetwork, leaveNetwork, bare waiters as the application's bring-up uses them), one of them sometimes cancelled: each completes at the first matching event, none is skipped.",
-    "C18": " Every undefined unified value below 0x20000 and structured 32-bit values (legacy codes in the low byte under various high bytes) are included.",
+    "C18": " Every undefined unified value below 0x20000 and structured 32-bit values (legacy codes in the low byte under various high bytes) are included."
+           ' Every 8-bit code is converted again and again - one family five times over before the other, then the other way round, then 20 000 conversions in random order mixed with unified statuses - and each result is judged like the first (the conversion is a function of its argument).',
     "C19": " Free-buffer reports vary from feed to feed (including nearly none); the all-success period run carries "
-           "isolated failures; on v4 the EZSP object is closed for good while the watchdog keeps feeding.",
+           "isolated failures; on v4 the EZSP object is closed for good while the watchdog keeps feeding."
+           ' About a third of the successful feeds on v5+ have their free-buffer read answered with an error status and no value: still successful feeds.',
     "C20": " Wrappers are also looked up once (on the owner loop, on another loop, in a thread without a loop) and called "
            "later from elsewhere; calls are made while the owner's loop is open but not running and must execute once it "
            "runs; a quarter of the coroutine calls are fire-and-forget and must execute all the same; coroutine calls "
            "handed to the owner's loop before force_stop() - running or still queued behind a busy loop - must come back "
            "to their callers; a proxy that is the only holder of its object keeps it alive across garbage collections."
-           " Coroutine calls that need up to 1.6 s to unwind after force_stop() must still relay what they end with (value, own exception, cancellation); the verdict is taken once the owner thread has ended.",
+           " Coroutine calls that need up to 1.6 s to unwind after force_stop() must still relay what they end with (value, own exception, cancellation); the verdict is taken once the owner thread has ended."
+           " Two shards run the proxies where bellows itself puts them - the real uart.connect(use_thread=True) with a fake serial port inside the serial thread: frames, an ERROR frame and a connection loss produced there must reach the application on its own thread and loop, gateway calls from the caller's loop must execute on the serial thread, private / non-callable attributes are refused, and calls made after the serial loop has closed are dropped without executing or blocking (all waits up to 20 s of real time; normally milliseconds).",
 }
